@@ -254,6 +254,22 @@ static void wl_serialize(struct ctx *c)
 	else { ob_puts(&c->res, s); if (strlen(s) != len) bad(c, "length-mismatch"); }
 	check_keeps(c); put_keeps(c, 1);
 }
+static void wl_serialize_boundary(struct ctx *c)
+{
+	/* param = (pad * 8 + kind) * 3 + flagset: ["<pad bytes>", X] — the pad sweeps every offset, so that each append of X's serializer
+	 * (colour prefix, literal, colour reset, separators) is in turn THE append that has to grow the 32- or 64-byte print buffer */
+	static const char *XS[] = {"true", "false", "null", "-7", "2.5", "\"x\"", "{\"k\":true}", "[false,null]"};
+	static const int FL[] = {0, JSON_C_TO_STRING_COLOR, JSON_C_TO_STRING_COLOR | JSON_C_TO_STRING_PRETTY};
+	int flags = FL[c->param % 3], kind = (c->param / 3) % 8, pad = c->param / 24; char doc[160]; int n = 0, i; struct json_object *o; const char *s; size_t len = 0;
+	doc[n++] = '['; doc[n++] = '"'; for (i = 0; i < pad; i++) doc[n++] = 'p'; doc[n++] = '"'; doc[n++] = ',';
+	n += sprintf(doc + n, "%s]", XS[kind]);
+	o = P(doc);
+	keep(c, o);
+	ARM(c); s = json_object_to_json_string_length(o, flags, &len); DISARM(c);
+	if (!s) c->failed = 1;
+	else { ob_puts(&c->res, s); if (strlen(s) != len) bad(c, "length-mismatch"); }
+	check_keeps(c); put_keeps(c, 1);
+}
 static void wl_serialize_twice(struct ctx *c)
 {
 	/* the node's printbuf already exists: a fault can only hit its growth */
@@ -510,7 +526,7 @@ static void wl_pointer_grow(struct ctx *c)
 }
 
 struct workload { const char *name; void (*fn)(struct ctx *); int param; const char *cat; };
-#define MAXW 1200
+#define MAXW 2600
 static struct workload W[MAXW]; static int NW;
 static void addw(const char *name, void (*fn)(struct ctx *), int param, const char *cat)
 {
@@ -544,6 +560,7 @@ static void build_table(void)
 	{ int k, L; for (k = 0; k < 5; k++) for (L = 0; L <= 260; L += (L < 70 || (L >= 120 && L < 135) || (L >= 250)) ? 1 : 5) addw("parse_token_boundary", wl_parse_token_boundary, k * 512 + L, "parse"); }
 	{ static const int ps[] = {0 * 4 + 0, 5 * 4 + 0, 5 * 4 + 1, 5 * 4 + 2, 5 * 4 + 3, 6 * 4 + 1, 9 * 4 + 2}; for (i = 0; i < 7; i++) addw("parse_comma_locale", wl_parse_locale, ps[i], "parse"); }
 	{ static const int ms[] = {0, 9, 10, 11, 12, 21, 22, 23, 43, 44}; int j; for (i = 0; i < 10; i++) for (j = 0; j < 2; j++) addw("pointer_grow", wl_pointer_grow, ms[i] * 2 + j, j ? "patch" : "pointer"); }
+	for (i = 0; i < 48 * 24; i++) addw("serialize_boundary", wl_serialize_boundary, i, "serialize");
 }
 
 static uint32_t crc32s(const char *p, size_t n)
@@ -595,7 +612,8 @@ static void cmd_w(int nt, char **t)
 		}
 		if (!strcmp(v, "ok") && vf_loc_live != loc0) { snprintf(vb, sizeof vb, "locale-object-leak:%ld", vf_loc_live - loc0); v = vb; }
 		if (!strcmp(v, "ok") && vf_loc_foreign_free != locff0) { snprintf(vb, sizeof vb, "freed-a-locale-it-does-not-own"); v = vb; }
-		printf("F %d %lu fired=%d site=%lx kind=%s out=%s v=%s\n", w, k, c.fired, (unsigned long)(uintptr_t)vf_fault_site[0], vf_fault_kind[0] ? vf_fault_kind[0] : "-", c.failed ? "failure" : "normal", v);
+		{ char stk[256] = "-"; int q, pos = 0; for (q = 2; q < vf_fault_nframes && q < 8 && c.fired; q++) pos += snprintf(stk + pos, sizeof stk - (size_t)pos, "%s%lx", q > 2 ? "," : "", (unsigned long)(uintptr_t)vf_fault_stack[q]);
+		  printf("F %d %lu fired=%d site=%lx kind=%s out=%s stack=%s v=%s\n", w, k, c.fired, (unsigned long)(uintptr_t)vf_fault_site[0], vf_fault_kind[0] ? vf_fault_kind[0] : "-", c.failed ? "failure" : "normal", stk, v); }
 		fflush(stdout);
 		free(c.res.b);
 	}
